@@ -147,6 +147,7 @@ type harnessDecl struct {
 	Witnesses  int
 	witnessesSet bool
 	OptSummary map[string]bool
+	RerunReal  map[string]bool
 	Product    bool
 	Doc        string
 	Bounds     []string
@@ -154,7 +155,7 @@ type harnessDecl struct {
 }
 
 func parseDirectives(fd *ast.FuncDecl) *harnessDecl {
-	h := &harnessDecl{Name: fd.Name.Name, Mode: "rel", Tier: "quick", Summaries: map[string]string{}, OptSummary: map[string]bool{}, Witnesses: 2}
+	h := &harnessDecl{Name: fd.Name.Name, Mode: "rel", Tier: "quick", Summaries: map[string]string{}, OptSummary: map[string]bool{}, RerunReal: map[string]bool{}, Witnesses: 2}
 	if fd.Doc == nil {
 		return h
 	}
@@ -176,10 +177,14 @@ func parseDirectives(fd *ast.FuncDecl) *harnessDecl {
 			h.Mode = rest
 		case "tier":
 			h.Tier = rest
-		case "summary", "summary-opt":
+		case "summary", "summary-opt", "summary-rr":
 			p := strings.SplitN(rest, "=>", 2)
 			if len(p) == 2 {
 				h.Summaries[strings.TrimSpace(p[0])] = strings.TrimSpace(p[1])
+				if f[0] != "summary" {
+					// concrete re-executions of solver models run the real callee instead of the contract
+					h.RerunReal[strings.TrimSpace(p[0])] = true
+				}
 				if f[0] == "summary-opt" {
 					// a contract for a callee the unchanged tree does not reach from this harness: absent target is not an error
 					h.OptSummary[strings.TrimSpace(p[0])] = true
@@ -359,6 +364,17 @@ func (c *Config) makeSpecs(l *loaded, findings map[string]bool) ([]*symx.Harness
 				return nil, nil, fmt.Errorf("%s: summarised function %q does not exist in the current tree", d.Name, target)
 			}
 			s.Summaries[target] = sf
+			if d.RerunReal[target] {
+				if s.RerunReal == nil {
+					s.RerunReal = map[string]bool{}
+				}
+				s.RerunReal[target] = true
+				if strings.HasPrefix(target, "(*") {
+					s.RerunReal["("+target[2:]] = true
+				} else if strings.HasPrefix(target, "(") {
+					s.RerunReal["(*"+target[1:]] = true
+				}
+			}
 			// the value- and pointer-receiver forms of a method are the same source function: SSA calls
 			// whichever the call site needs, so both names are replaced (the contract must not use the receiver)
 			if strings.HasPrefix(target, "(*") {
@@ -537,7 +553,14 @@ func runCheck(c *Config) int {
 	var notes []string
 	for _, r := range results {
 		d := decls[r.Spec.Name]
-		native := (len(d.Summaries) == 0 || len(r.Summarised) == 0) && !c.NoReplay // summaries declared but never applied do not change the run
+		onlyRR := true
+		for k := range r.Summarised {
+			if !r.Spec.RerunReal[k] {
+				onlyRR = false
+			}
+		}
+		// summaries declared but never applied do not change the run; contracts marked "real on re-run" are replaced by the real callee natively anyway
+		native := (len(d.Summaries) == 0 || len(r.Summarised) == 0 || onlyRR) && !c.NoReplay
 		for _, w := range r.Witnesses {
 			if !native {
 				continue
@@ -953,6 +976,14 @@ func concreteWitness(P *symx.Program, c *Config, spec *symx.HarnessSpec, model m
 			s2.Concrete[k] = b
 		}
 	}
+	if len(spec.RerunReal) > 0 {
+		s2.Summaries = map[string]*ssa.Function{}
+		for k, v := range spec.Summaries {
+			if !spec.RerunReal[k] {
+				s2.Summaries[k] = v
+			}
+		}
+	}
 	s2.Relational = false
 	s2.Findings = nil
 	e := symx.NewEngine(P, c.Solver)
@@ -979,6 +1010,14 @@ func concreteRerun(P *symx.Program, c *Config, spec *symx.HarnessSpec, v symx.Vi
 	for k, val := range v.Model {
 		if b, ok := new(big.Int).SetString(val, 10); ok {
 			s2.Concrete[k] = b
+		}
+	}
+	if len(spec.RerunReal) > 0 {
+		s2.Summaries = map[string]*ssa.Function{}
+		for k, v := range spec.Summaries {
+			if !spec.RerunReal[k] {
+				s2.Summaries[k] = v
+			}
 		}
 	}
 	s2.Relational = false
